@@ -18,6 +18,8 @@ from . import analysis
 rule("C13.d", "periodic merge: costs and matrix columns of joined variables are summed (value preserving); only bounds may be averaged", floor=2)
 rule("C13.g", "periodic merge: a group of variables is joined once, although the loop visits mapping rows and a variable can have several "
               "rows (transport: one per node) - accumulating updates are protected by a visited set", floor=1)
+rule("C13.h", "periodic merge: a variable that has been merged away is not chosen as leading variable of a later group (and a leading "
+              "variable is not merged away later): the loop consults the set of removed variables", floor=1, props=["C13", "C07"])
 rule("C13.f", "a scipy sparse matrix is subscripted only in a format that supports it (lil / csr / csc; item assignment: lil)", floor=20,
      props=["C13", "C07"])
 rule("C15.d", "inside the fix-window branch only the bounds l and u are written", floor=1)
@@ -91,7 +93,7 @@ class _Fmt(Domain):
         return s
 
 
-@analysis("sparsefmt", ["C13.d", "C13.f", "C13.g", "C15.d", "C04.c"])
+@analysis("sparsefmt", ["C13.d", "C13.f", "C13.g", "C13.h", "C15.d", "C04.c"])
 def run(ctx):
     p = ctx.p
     # ================================================================= C13.f
@@ -246,6 +248,28 @@ def run(ctx):
                    "two days has total cost 72 instead of 48" % (sorted(c for c in cols if c), au.short(first, 50)), node=first)
         else:
             ctx.ob("C13.g", mp, "each group of variables is joined once", None, "origin of the labels of the joined variables not recognised", node=first)
+
+    # ================================================================= C13.h
+    removed = set()
+    for st in au.walk_stmts(mp.body):
+        for x in au.walk_own(st):
+            if isinstance(x, ast.Call) and au.call_name(x) in ("np.delete", "numpy.delete") and len(x.args) >= 2 and isinstance(x.args[1], ast.Name):
+                removed.add(x.args[1].id)
+    lead_defs = [st for st in au.walk_stmts(mp.body) if isinstance(st, ast.Assign) and isinstance(st.value, ast.Subscript)
+                 and au.const_num(st.value.slice) == 0 and any(isinstance(a, ast.For) for a in ctx.p.ancestors(st))]
+    if removed and lead_defs:
+        consulted = any(isinstance(c, ast.Compare) and isinstance(c.ops[0], (ast.In, ast.NotIn)) and isinstance(c.comparators[0], ast.Name)
+                        and c.comparators[0].id in removed for c in au.walk_local(mp.node)) or \
+            any(isinstance(c, ast.Call) and au.method_name(c) in ("isin", "in1d", "setdiff1d", "difference") and (removed & au.names_in(c)) for c in au.walk_local(mp.node))
+        ctx.ob("C13.h", mp, "leading variables are not among the removed ones", consulted,
+               "the loop takes the first variable of each group as leading variable and adds the others to %s, but never looks into that set: "
+               "when groups overlap - a variable of a coarser asset frequency that spans two periods belongs to two groups - a variable can be "
+               "leading in one group and removed in another; its rows (and those redirected to it) end up with label -1, i.e. point to no "
+               "variable (stand-alone) or to the previous asset's last variable (in a portfolio): SimpleContract(freq='2d', periodicity='W') "
+               "on a daily grid has 3 variables and labels -1 .. 2" % "/".join(sorted(removed)), node=lead_defs[0],
+               key="leading variables are not among the removed ones")
+    else:
+        ctx.ob("C13.h", mp, "leading variables are not among the removed ones", None, "leading variable / removed set not recognised")
 
     # ================================================================= C15.d
     pf = p.fn_opt("Portfolio.setup_optim_problem")
